@@ -6,15 +6,19 @@ created (initial merge, successful pin, patched copy during backtracking) holds 
 the state `resolve` returns, for every number of rounds. -/
 namespace DepsDev.Resolve.Pypi
 
-structure StepInv (U : Universe) (root : Ver) (direct : List Req) (I : State → Prop) : Prop where
-  init : I ⟨[], []⟩
-  merge0 : ∀ S r c, I S → r ∈ direct → mergeIntoCriterion U root S r root = .ok c →
-    I { S with criteria := putCrit S.criteria r.pkg c }
+/-- preservation by the two ways a round creates a state -/
+structure RoundInv (U : Universe) (root : Ver) (I : State → Prop) : Prop where
   pin : ∀ S name cand upd, I S → cand ∈ ((getCrit S.criteria name).getD Criterion.empty).cands →
     getCriteriaToUpdate U root S ⟨name, cand⟩ ((getCrit S.criteria name).getD Criterion.empty).extras = .ok upd →
     I { mapping := setPin S.mapping ⟨name, cand, ((getCrit S.criteria name).getD Criterion.empty).extras⟩,
         criteria := putAll S.criteria upd }
   patch : ∀ prev incs cs, I prev → patchCriteria incs prev.criteria = some cs → I ⟨prev.mapping, cs⟩
+
+/-- ... and by the initial merges -/
+structure StepInv (U : Universe) (root : Ver) (direct : List Req) (I : State → Prop) : Prop extends RoundInv U root I where
+  init : I ⟨[], []⟩
+  merge0 : ∀ S r c, I S → r ∈ direct → mergeIntoCriterion U root S r root = .ok c →
+    I { S with criteria := putCrit S.criteria r.pkg c }
 
 variable {U : Universe} {root : Ver} {direct : List Req} {I : State → Prop}
 
@@ -30,7 +34,7 @@ theorem initCriteria_inv (si : StepInv U root direct I) :
     rename_i c hm
     exact ih _ _ (fun x hx => hsub x (List.mem_cons_of_mem _ hx)) (si.merge0 S r c hI (hsub r List.mem_cons_self) hm) h
 
-theorem tryCandidates_inv (si : StepInv U root direct I) (S : State) (name : Nat) (hI : I S) :
+theorem tryCandidates_inv (si : RoundInv U root I) (S : State) (name : Nat) (hI : I S) :
     ∀ (cs : List Nat) (causes : Nat) (S' : State),
       (∀ c ∈ cs, c ∈ ((getCrit S.criteria name).getD Criterion.empty).cands) →
       tryCandidates U root S name ((getCrit S.criteria name).getD Criterion.empty).extras cs causes = .pinned S' → I S' := by
@@ -48,12 +52,12 @@ theorem tryCandidates_inv (si : StepInv U root direct I) (S : State) (name : Nat
     · simp at h
     · simp at h
 
-theorem attempt_inv (si : StepInv U root direct I) (S S' : State) (name : Nat) (hI : I S)
+theorem attempt_inv (si : RoundInv U root I) (S S' : State) (name : Nat) (hI : I S)
     (h : attemptToPinCriterion U root S name = .pinned S') : I S' := by
   simp only [attemptToPinCriterion] at h
   exact tryCandidates_inv si S name hI _ _ _ (fun c hc => List.mem_reverse.mp hc) h
 
-theorem backtrack_inv (si : StepInv U root direct I) :
+theorem backtrack_inv (si : RoundInv U root I) :
     ∀ (n : Nat) (st st' : List State) (b : Bool), (∀ S ∈ st, I S) → backtrack n st = (st', b) → ∀ S ∈ st', I S := by
   intro n
   induction n with
@@ -91,7 +95,7 @@ theorem all_cons2 {a : State} {l : List State} (ha : I a) (hl : ∀ X ∈ l, I X
     · subst e; exact ha
     · exact hl X e
 
-theorem rounds_inv (si : StepInv U root direct I) :
+theorem rounds_inv (si : RoundInv U root I) :
     ∀ (fuel : Nat) (st : List State) (S : State), (∀ T ∈ st, I T) → rounds U root direct fuel st = .done S → I S := by
   intro fuel
   induction fuel with
@@ -121,12 +125,17 @@ theorem rounds_inv (si : StepInv U root direct I) :
           · refine ih _ S ?_ h
             exact all_cons2 (hI T List.mem_cons_self) (fun X hX => hI X (List.mem_cons_of_mem _ hX))
 
-theorem resolve_inv (si : StepInv U root direct I) {n : Nat} {S : State}
+/-- an invariant established by the initial merges and preserved by the rounds -/
+theorem resolve_inv_from_init (ri : RoundInv U root I)
+    (h0 : ∀ S0, initCriteria U root direct ⟨[], []⟩ = .ok S0 → I S0) {n : Nat} {S : State}
     (h : resolve U root direct n = .done S) : I S := by
   simp only [resolve] at h
   split at h <;> try (simp at h)
-  rename_i S0 h0
-  have hS0 : I S0 := initCriteria_inv si direct _ _ (fun _ hr => hr) si.init h0
-  exact rounds_inv si n _ S (all_cons2 hS0 (fun X hX => by simp at hX)) h
+  rename_i S0 hS0
+  exact rounds_inv (direct := direct) ri n _ S (all_cons2 (h0 S0 hS0) (fun X hX => by simp at hX)) h
+
+theorem resolve_inv (si : StepInv U root direct I) {n : Nat} {S : State}
+    (h : resolve U root direct n = .done S) : I S :=
+  resolve_inv_from_init si.toRoundInv (fun S0 h0 => initCriteria_inv si direct _ _ (fun _ hr => hr) si.init h0) h
 
 end DepsDev.Resolve.Pypi
